@@ -19,8 +19,8 @@ ASSUMPTIONS = [
     'the task running step_until_terminated() is observed after the loop is quiescent (no wall clock)',
 ]
 BUDGET = {
-    'quick': {'enum': ['k1', 'k2', 'listener', 'hooks'], 'hyp': 4000, 'shards': 8},
-    'thorough': {'enum': ['k1', 'k2', 'k3', 'k4w', 'listener', 'hooks'], 'hyp': 160000, 'shards': 16},
+    'quick': {'enum': ['k1', 'k2', 'listener', 'hooks', 'tasks'], 'hyp': 4000, 'shards': 8},
+    'thorough': {'enum': ['k1', 'k2', 'k3', 'k4w', 'listener', 'hooks', 'tasks'], 'hyp': 160000, 'shards': 16},
 }
 ALPHABET = [['pause', 'p'], ['play'], ['kill', 'kt'], ['resume', 1]]
 TERMINAL = ('finished', 'excepted', 'killed')
@@ -36,6 +36,15 @@ def enumerate_cases(tier, scope):
         for name in ('async2', 'wait1', 'chain', 'waitwait', 'failing', 'selfkill', 'sync3'):
             for sched in gen.schedules(ALPHABET, k, max_gap):
                 yield {'program': cat[name], 'schedule': sched, 'tag': f'{scope}:{name}', 'listener_twice': True, 'cleanup_follow_up': True}
+    elif scope == 'tasks':
+        # the caller gives up on step_until_terminated() (its task is cancelled) and may step the process again later
+        alpha = [['pause', 'p'], ['play'], ['kill', 'kt'], ['resume', 1], ['cancel_task'], ['restep']]
+        for name in ('async2', 'wait1', 'gated', 'chain'):
+            for k in (2, 3):
+                for sched in gen.schedules(alpha, k, 2):
+                    if not any(ev[0] == 'cancel_task' for ev in sched):
+                        continue
+                    yield {'program': cat[name], 'schedule': sched, 'tag': f'tasks:{name}'}
     elif scope == 'k4w':
         for name in ('wait1', 'waitwait', 'async2'):
             for sched in gen.schedules(ALPHABET, 4, 1):
@@ -63,7 +72,7 @@ def enumerate_cases(tier, scope):
 @st.composite
 def _cases(draw, tier):
     prog = draw(gen.programs(max_steps=4 if tier == 'quick' else 6, self_calls=('pause', 'play', 'kill'), soon=True))
-    sched = draw(gen.control_schedules(['pause', 'play', 'kill', 'kill', 'resume', 'open'], max_events=4, max_gap=4))
+    sched = draw(gen.control_schedules(['pause', 'play', 'kill', 'kill', 'resume', 'open', 'cancel_task', 'restep'], max_events=4, max_gap=4))
     plans = draw(gen.listener_plans(['kill', 'pause', 'play'])) if draw(st.booleans()) else []
     case = {'program': prog, 'schedule': sched, 'listener': plans}
     if draw(st.integers(0, 2)) == 0:
@@ -89,6 +98,8 @@ def execute(case):
     with Exec(case) as ex:
         ex.start()
         ex.run_schedule()
+        if any(ev[0] == 'cancel_task' for ev in case.get('schedule', ())):
+            ex.event(['restep'])  # somebody steps the process again in the end
         # no play after termination: it would release a stepping task that termination itself must release
         ex.settle(play=True, resumes=[11, 12, 13, 14, 15, 16], open_gates=True, final_play=False)
         w = ex.world
@@ -175,7 +186,9 @@ def execute(case):
             if views['closed'] is not True:
                 v('not-closed', f"add_cleanup after termination: closed={views['closed']}")
             # step_until_terminated() returned
-            if not views.get('task_done'):
+            if views.get('task_harness_cancelled'):
+                classes.append('stepping-task-cancelled-by-caller')
+            elif not views.get('task_done'):
                 v('stepping-task-blocked', f'state {final}, paused={views["paused"]}: the task running step_until_terminated() is not done')
             elif views.get('task_cancelled') or views.get('task_exception') is not None:
                 v('stepping-task-raised', f"task exception {views.get('task_exception')!r} cancelled={views.get('task_cancelled')}")
